@@ -7,7 +7,8 @@ import common as c
 def crash_enum(ctx, n):
     p = c.vh(["ckcrash", "--n", n, "--seed", ctx.seed], timeout=3000)
     if p.returncode != 0:
-        raise c.ToolError("ckcrash failed: " + p.stderr[-800:])
+        c.recorder_failed(ctx, "ckcrash", p, "checkpoint-crash")
+        return
     r = json.loads(p.stdout.strip().splitlines()[-1])
     for f in r["failures"]:
         f.setdefault("cfg", {})
